@@ -12,7 +12,17 @@ import (
 	"strings"
 )
 
-const semicolon = ";" // From grpcinterceptors.go in onos-lib-go
+// CallerGroups returns the groups of the caller. The authentication interceptor of onos-lib-go adds one
+// metadata value per element of the token's "groups" claim: every value is one whole group name
+func CallerGroups(md metautils.NiceMD) []string {
+	groups := make([]string, 0, len(md["groups"]))
+	for _, group := range md["groups"] {
+		if group != "" {
+			groups = append(groups, group)
+		}
+	}
+	return groups
+}
 
 // TemporaryEvaluate - simple evaluation of rules until OpenPolicyAgent is added
 // This is so that aether-config can be deployed to the cloud in 2021 Q1 with simple RBAC
@@ -20,16 +30,14 @@ const semicolon = ";" // From grpcinterceptors.go in onos-lib-go
 // TODO replace the following with fine grained RBAC using OpenPolicyAgent Rego in 2021 Q2
 func TemporaryEvaluate(md metautils.NiceMD) error {
 	adminGroups := os.Getenv("ADMINGROUPS")
+	groups := CallerGroups(md)
 	// A request that carries no identity metadata at all was not authenticated (security is off):
 	// there is no caller to evaluate.
-	if md.Get("preferred_username") == "" && md.Get("name") == "" && md.Get("email") == "" && md.Get("groups") == "" {
+	if md.Get("preferred_username") == "" && md.Get("name") == "" && md.Get("email") == "" && len(groups) == 0 {
 		return nil
 	}
 	admins := strings.FieldsFunc(adminGroups, func(r rune) bool { return r == ',' || r == ';' || r == ' ' })
-	for _, g := range strings.Split(md.Get("groups"), semicolon) {
-		if g == "" {
-			continue
-		}
+	for _, g := range groups {
 		for _, admin := range admins {
 			if g == admin {
 				return nil
